@@ -140,6 +140,11 @@ class Flow:
         return [e for e in self.events if e.kind == kind]
 
     def _on_call(self, node, name, recv, args, kw, recv_rf=None):
+        # a local container changed in place (xs.append(v), d.update(e) ...) no longer has the value it was bound to
+        # (the binding is kept - rules identify a container by its allocation - but walking it, or handing it back
+        # from an inlined helper, yields a run-time built sequence, not the literal it started as)
+        if name in self.MUTATORS and isinstance(recv, ast.Name) and isinstance(self.env.get(recv.id), RF):
+            self._mutated = getattr(self, '_mutated', set()) | {recv.id}
         frf = self.env.get(node.func.id) if isinstance(node.func, ast.Name) else None
         self.ev('call', node, name=name, recv=recv, args=args, kw=dict(kw),
                 fn=dotted(node.func), recv_rf=recv_rf, func_rf=frf if isinstance(frf, RF) else None)
@@ -152,6 +157,8 @@ class Flow:
     # extracting a helper from an anchored function does not hide the code from the rules.  Functions that the
     # rules were written against stay opaque calls.
     MAX_INLINE_DEPTH = 3
+    MUTATORS = {'append', 'extend', 'insert', 'update', 'pop', 'remove', 'sort', 'reverse', 'clear', 'add',
+                'setdefault', 'popitem', 'discard'}
 
     def _new_helper(self, node, name, recv):
         ix = getattr(self, 'ix', None)
@@ -280,6 +287,8 @@ class Flow:
             pcs = [x for x in r.guards if not x.early and x.rf is not None]
             ecs = [x for x in r.guards if x.early and x.rf is not None]
             v = r.value if r.value is not None else none
+            if isinstance(getattr(r, 'value_ast', None), ast.Name) and r.value_ast.id in getattr(child, '_mutated', ()):
+                v = t.atom('mutated', (v,))
             if not pcs:
                 val = v if val is None or not ecs else val if False else v
                 continue
@@ -688,6 +697,8 @@ class Flow:
                           op='for')
         else:
             seq = self.expr(it)
+            if isinstance(it, ast.Name) and it.id in getattr(self, '_mutated', ()):
+                seq = t.atom('mutated', (seq,))
             lp = Loop(s, 'iter', var=ast.unparse(s.target), iter_rf=[seq],
                       iter_ast=it, index=idx_atom)
             self.bind(s.target, t.atom('elem', (seq, idx_atom)), s, op='for')
